@@ -71,12 +71,9 @@ pub fn matches_dockerignore_filter(
     for dockerignore_filter in dockerignore_filters {
         let is_match = dockerignore_filter.regex.is_match(&file_name);
 
-        if is_match && dockerignore_filter.negate {
-            return false;
-        }
-
+        // the last pattern that matches decides
         if is_match {
-            matched = true;
+            matched = !dockerignore_filter.negate;
         }
     }
 
